@@ -242,6 +242,16 @@ impl<'a> ConstraintValidator<'a> {
             Ok(d) => d,
             Err(_) => return OwnedValue::Null,
         };
+        let days_in_month = match month {
+            1 | 3 | 5 | 7 | 8 | 10 | 12 => 31,
+            4 | 6 | 9 | 11 => 30,
+            2 if (year % 4 == 0 && year % 100 != 0) || year % 400 == 0 => 29,
+            2 => 28,
+            _ => return OwnedValue::Null,
+        };
+        if !(1..=days_in_month).contains(&day) {
+            return OwnedValue::Null;
+        }
         let days = Self::days_from_ymd(year, month, day);
         OwnedValue::Date(days)
     }
@@ -299,6 +309,9 @@ impl<'a> ConstraintValidator<'a> {
         } else {
             (0, 0)
         };
+        if !(0..=23).contains(&hour) || !(0..=59).contains(&minute) || !(0..=59).contains(&second) {
+            return OwnedValue::Null;
+        }
         let micros = hour * 3_600_000_000 + minute * 60_000_000 + second * 1_000_000 + micros_frac;
         OwnedValue::Time(micros)
     }
@@ -334,7 +347,7 @@ impl<'a> ConstraintValidator<'a> {
         let time_micros = if datetime_parts.len() > 1 {
             match Self::parse_time_default(datetime_parts[1]) {
                 OwnedValue::Time(t) => t,
-                _ => 0,
+                _ => return OwnedValue::Null,
             }
         } else {
             0
